@@ -51,7 +51,9 @@ Definition ref_covers_own (t : rtarget) : bool :=
 Definition covers_own (s : shape) : bool := existsb ref_covers_own (refs s).
 (* "every signature present": the element carries no further ds:Signature (the extra one of the
    abstract input never verifies) *)
-Definition sole (s : shape) : bool := match xsig s with XNone => true | XBefore | XAfter => false end.
+Definition sole (s : shape) : bool := match xsig s with XNone | XIn _ _ _ => true | XBefore | XAfter => false end.
+(* round 6: a signature borne by a DESCENDANT of the element (an assertion in its Advice, say) is a signature on that
+   descendant, not on the element: it neither vouches for the element nor spoils the element's own signature *)
 
 (* a signature VERIFIES THE ELEMENT when it is intact, digests that very element, is the only one the
    element carries, and was made by a trusted key; present signatures that are not intact / do not
@@ -68,11 +70,14 @@ Definition state (c : config) (w : who) (s : option sgn) : sigst :=
    with one exclusive canonicalisation transform, nothing else; no ds:Object; one ds:Signature.
    Only such signatures have to be accepted. *)
 Definition is_exc (t : talg) : bool := match t with TExc | TExcWC => true | TEnv | TInc => false end.
+(* the schema puts ds:Signature right after saml:Issuer, ahead of everything that can hold further elements: in an
+   element as the schema wants it no other ds:Signature precedes the element's own *)
+Definition in_place (s : shape) : bool := match xsig s with XIn true _ _ => false | _ => true end.
 Definition in_profile (s : shape) : bool :=
   match refs s with [ROwn] => true | _ => false end
   && match c14n s with CExc | CExcWC => true | CInc => false end
   && match trs s with [TEnv] => true | [TEnv; t] => is_exc t | [t; TEnv] => is_exc t | _ => false end
-  && negb (obj s) && sole s.
+  && negb (obj s) && sole s && in_place s.
 Definition sig_in_profile (s : option sgn) : bool := match s with None => true | Some g => in_profile (shp g) end.
 
 Definition r_state (c : config) (m : msg) : sigst := state c (r_who m) (m_rs m).
@@ -245,4 +250,44 @@ Definition spec_client_mm_b (k : client) (ms : list mmsg) (ids : list bool) : bo
   match meant_config k with
   | Some c => spec_seq_mm_b c ms ids
   | None => Nat.eqb (length ids) (length ms) && forallb negb ids
+  end.
+
+(* ---- round 6: the keys that open an EncryptedAssertion ---------------------------------------------------
+   "the assertion that is used": an EncryptedAssertion can be used only by a receiver that holds the private key of
+   the certificate it was encrypted for - its configured key, or the key pair the application made for this very
+   request and hands over with the Response (outstanding_certs[InResponseTo]).  What the receiver cannot open it
+   does not use.  "accepted, whether its assertion is sent in clear or encrypted": encrypted for a key the receiver
+   holds - whichever of them. *)
+Definition holds_key (o : ocerts) (r : dkey) : bool :=
+  match r with
+  | DConfigured => true
+  | _ => match o with OThis ks => existsb (dkey_eqb r) ks | OAbsent | OEmpty | OElse _ => false end
+  end.
+Definition can_read (x : xmsg) : bool := holds_key (x_oc x) (x_rcpt x).
+Definition used (x : xmsg) : mmsg :=
+  if can_read x then xm x else with_asl (xm x) (filter (fun a => negb (x_enc a)) (mm_asl (xm x))).
+
+Definition spec_x (c : config) (x : xmsg) (identity : bool) : Prop :=
+  (identity = true -> mm_asl (used x) <> [] /\ satisfied_mm c (used x))
+  /\ (satisfied_mm c (xm x) -> otherwise_valid_mm (xm x) -> can_read x = true -> identity = true).
+Definition spec_x_b (c : config) (x : xmsg) (identity : bool) : bool :=
+  implb identity (nonempty (mm_asl (used x)) && satisfied_mm_b c (used x))
+  && implb (satisfied_mm_b c (xm x) && otherwise_valid_mm_b (xm x) && can_read x) identity.
+
+Definition spec_seq_x (c : config) (xs : list xmsg) (ids : list bool) : Prop := Forall2 (spec_x c) xs ids.
+Fixpoint spec_seq_x_b (c : config) (xs : list xmsg) (ids : list bool) : bool :=
+  match xs, ids with
+  | [], [] => true
+  | x :: xs', i :: ids' => spec_x_b c x i && spec_seq_x_b c xs' ids'
+  | _, _ => false
+  end.
+Definition spec_client_x (k : client) (xs : list xmsg) (ids : list bool) : Prop :=
+  match meant_config k with
+  | Some c => spec_seq_x c xs ids
+  | None => length ids = length xs /\ Forall (fun i => i = false) ids
+  end.
+Definition spec_client_x_b (k : client) (xs : list xmsg) (ids : list bool) : bool :=
+  match meant_config k with
+  | Some c => spec_seq_x_b c xs ids
+  | None => Nat.eqb (length ids) (length xs) && forallb negb ids
   end.
